@@ -86,6 +86,7 @@ package mq
 //@   assigns *v
 //@   ensures result != nil ==> istype(result, *Malformed) && payload(result, *Malformed) != nil
 //@   ensures result == nil ==> len(data) >= 4 + len(v[0]) + len(v[1])
+//@   ensures result == nil ==> fresh(v[0]) && fresh(v[1])                                                       #C14
 
 //@ func unmarshalErr
 //@   requires istype(err, *Malformed) ==> payload(err, *Malformed) != nil
